@@ -22,12 +22,12 @@ func (ex *Exec) modifiedIn(li *loopInfo) (cells map[*ssa.Alloc]bool, heaps map[s
 	}
 	addMap := func(mt *types.Map) {
 		vs := sortOf(mt.Elem())
-		add(mapDomName(vs), ArrS(SInt, ArrS(SInt, SBool)))
-		add(mapValName(vs), ArrS(SInt, ArrS(SInt, vs)))
+		add(mapDomName(mt), ArrS(SInt, ArrS(SInt, SBool)))
+		add(mapValName(mt), ArrS(SInt, ArrS(SInt, vs)))
 	}
 	addArr := func(et types.Type) {
 		es := sortOf(et)
-		add(heapArrName(es), ArrS(SInt, ArrS(SInt, es)))
+		add(heapArrName(et), ArrS(SInt, ArrS(SInt, es)))
 	}
 	addTrace := func() {
 		add("$tr", ArrS(SInt, SEvent))
@@ -93,6 +93,9 @@ func (ex *Exec) modifiedIn(li *loopInfo) (cells map[*ssa.Alloc]bool, heaps map[s
 			case *ssa.UnOp:
 				if x.Op == token.ARROW {
 					addTrace()
+					if _, ok := ex.V.db.Ghosts["$deadline"]; ok {
+						add("$now", SInt)
+					}
 				}
 			case *ssa.Next:
 				add(ex.iterHeapName(x.Iter), ArrS(SInt, SBool))
@@ -159,16 +162,17 @@ func (ex *Exec) callEffects(c *ssa.CallCommon, heaps map[string]bool) {
 				heaps["$nextref"] = true
 				ex.noteHeap("$nextref", SInt)
 			}
-			es := sortOf(c.Args[0].Type().Underlying().(*types.Slice).Elem())
-			heaps[heapArrName(es)] = true
-			ex.noteHeap(heapArrName(es), ArrS(SInt, ArrS(SInt, es)))
+			aet := c.Args[0].Type().Underlying().(*types.Slice).Elem()
+			es := sortOf(aet)
+			heaps[heapArrName(aet)] = true
+			ex.noteHeap(heapArrName(aet), ArrS(SInt, ArrS(SInt, es)))
 		case "delete":
 			mt := c.Args[0].Type().Underlying().(*types.Map)
 			vs := sortOf(mt.Elem())
-			heaps[mapDomName(vs)] = true
-			heaps[mapValName(vs)] = true
-			ex.noteHeap(mapDomName(vs), ArrS(SInt, ArrS(SInt, SBool)))
-			ex.noteHeap(mapValName(vs), ArrS(SInt, ArrS(SInt, vs)))
+			heaps[mapDomName(mt)] = true
+			heaps[mapValName(mt)] = true
+			ex.noteHeap(mapDomName(mt), ArrS(SInt, ArrS(SInt, SBool)))
+			ex.noteHeap(mapValName(mt), ArrS(SInt, ArrS(SInt, vs)))
 		case "recover":
 			heaps["$panicking"] = true
 			ex.noteHeap("$panicking", SBool)
